@@ -1,6 +1,7 @@
 import Props.C01
 import Props.C02
 import Props.C03
+import Props.C05
 import Props.C07
 import Props.C13
 import Props.C14
